@@ -4,7 +4,7 @@
     shells against the reported far field.
 """
 import numpy as np
-from pmv import common, gen, observe
+from pmv import common, gen, observe, corpus
 from pmv.oracles import nfref, ffref
 
 ID   = 'C04'
@@ -27,11 +27,19 @@ CASE_TIMEOUT = 300
 
 def plan (tier, seed):
     n = 180 if tier == 'quick' else 4000
-    return [dict (i = i, seed = seed) for i in range (n)]
+    return [dict (i = i, seed = seed) for i in range (n)] + corpus.plan_cases (seed, tier, 1, 3)
 # end def plan
 
 def make (c):
     rng = np.random.default_rng ([c ['seed'], 4, c ['i']])
+    if 'corpus' in c:
+        spec = corpus.make (c, 4)
+        rng  = corpus.rng_of (c, 4)
+        if spec ['media'] is not None:
+            spec ['media'] = [[0.0, 0.0, 0.0, None]]
+            spec.pop ('boundary', None)
+            spec.pop ('radials', None)
+        return add_points (rng, spec)
     if rng.random () < 0.5:
         spec = gen.fam_free (rng, equal_junction = bool (rng.random () < 0.4), shift = False, nmax = 24)
     else:
@@ -48,6 +56,10 @@ def make (c):
     spec ['src'] = [s for s in spec ['src'] if 'at' in s] or spec ['src']
     if any ('p' in s for s in spec ['src']):
         spec ['src'] = [dict (p = [2], v = [1.0, 0.0])]
+    return add_points (rng, spec)
+# end def make
+
+def add_points (rng, spec):
     spec ['nf'] = dict ( pwr = (None if rng.random () < 0.3 else float (10 ** rng.uniform (-3, 4)))
                        , dirs = rng.normal (size = (6, 3)).tolist ()
                        , shell = [float (rng.uniform (1.0, 1.5)), float (rng.uniform (1.0, 1.5))]
@@ -55,7 +67,7 @@ def make (c):
                        , far = [float (rng.uniform (150, 400)), float (rng.uniform (150, 400))]
                        , pick = rng.random (6).tolist ())
     return gen.clean (spec)
-# end def make
+# end def add_points
 
 def near_point (m, rng_pick, d, direction):
     """ a point at distance d (in longest-segment units) from a randomly picked segment, pushed out
